@@ -229,6 +229,39 @@ pub fn gen_fileset(rng: &mut Rng, sector: usize, max_total: usize) -> Vec<FileSp
     out
 }
 
+/// Contents at the compressor's break-even point (compressed payload about one byte shorter than the input), where the
+/// writer's "store raw unless it shrinks" decision and the reader's "stored size == size means raw" rule must agree.
+/// Found by growing a compressible tail behind incompressible bytes until `compress` first returns a shorter form; the
+/// lengths just around that point are returned (the search uses the code under test only to *locate* the boundary).
+pub fn break_even_contents(rng: &mut Rng, method: u8) -> Vec<Vec<u8>> {
+    if method == 0 || is_lossy(method) || method == 0x08 {
+        return vec![];
+    }
+    let head_len = 40 + rng.usize(220);
+    let head: Vec<u8> = rng.bytes(head_len).into_iter().map(|b| b | 1).collect();
+    let filler = if method == 0x20 { 0u8 } else { b'A' };
+    let mut first_shorter = None;
+    for t in 0..400usize {
+        let mut d = head.clone();
+        d.extend(std::iter::repeat(filler).take(t));
+        match vh_common::trap(|| wow_mpq::compress(&d, method)) {
+            Ok(Ok(c)) if c.len() < d.len() => {
+                first_shorter = Some(t);
+                break;
+            }
+            _ => {}
+        }
+    }
+    let Some(t0) = first_shorter else { return vec![] };
+    (t0.saturating_sub(3)..=t0 + 1)
+        .map(|t| {
+            let mut d = head.clone();
+            d.extend(std::iter::repeat(filler).take(t));
+            d
+        })
+        .collect()
+}
+
 /// Spellings that differ only in ASCII case or slash direction.
 pub fn spellings(name: &str) -> Vec<(String, &'static str)> {
     let upper: String = name.chars().map(|c| c.to_ascii_uppercase()).collect();
